@@ -204,6 +204,8 @@ func gen(t *rapid.T) Case {
 	live := 1
 	modOf := []int{-1} // per live scope: index into known if the scope is a module
 	var known []kpath
+	var modScopes []int
+	pendingPath := false
 	var usedV, usedT []string // names some define was issued for (bias for reads, set, delete)
 	name := func(used []string) string {
 		if len(used) > 0 && rapid.IntRange(0, 9).Draw(t, "usedname") < 6 {
@@ -213,7 +215,15 @@ func gen(t *rapid.T) Case {
 	}
 	for i := 0; i < n; i++ {
 		var op Op
-		if live >= maxLive {
+		// keep == 0 drops the op after all its draws were made: rapid minimises draws
+		// towards 0, which lets shrinking delete any single op of a failing history
+		keep := rapid.IntRange(0, 15).Draw(t, "keep") != 0
+		sLive, sMod, sKnown, sMS, sUV, sUT, sPend := live, len(modOf), len(known), len(modScopes), len(usedV), len(usedT), pendingPath
+		if pendingPath {
+			// look a freshly created module up before its name is rebound
+			pendingPath = false
+			op.Op = "GetEnvFromPath"
+		} else if live >= maxLive {
 			op.Op = rapid.SampledFrom(opsNoCreate).Draw(t, "op")
 		} else {
 			op.Op = rapid.SampledFrom(opsAll).Draw(t, "op")
@@ -253,6 +263,10 @@ func gen(t *rapid.T) Case {
 		case "NewModule":
 			op.Name = rapid.SampledFrom(nameDraw).Draw(t, "name")
 			usedV = append(usedV, op.Name)
+			if len(modScopes) > 0 && rapid.Bool().Draw(t, "nest") {
+				// nest inside an existing module so that longer paths resolve
+				op.S = modScopes[len(modScopes)-1-rapid.IntRange(0, len(modScopes)-1).Draw(t, "ms")]
+			}
 			if strings.Contains(op.Name, ".") {
 				modOf = append(modOf, -1)
 			} else {
@@ -262,6 +276,8 @@ func gen(t *rapid.T) Case {
 				}
 				known = append(known, kp)
 				modOf = append(modOf, len(known)-1)
+				modScopes = append(modScopes, live)
+				pendingPath = rapid.IntRange(0, 2).Draw(t, "paththen") == 0
 			}
 			live++
 		case "Copy", "DeepCopy":
@@ -295,6 +311,10 @@ func gen(t *rapid.T) Case {
 					op.Path = append(op.Path, rapid.SampledFrom(pathElems).Draw(t, "pe"))
 				}
 			}
+		}
+		if !keep {
+			live, modOf, known, modScopes, usedV, usedT, pendingPath = sLive, modOf[:sMod], known[:sKnown], modScopes[:sMS], usedV[:sUV], usedT[:sUT], sPend
+			continue
 		}
 		c.Ops = append(c.Ops, op)
 	}
